@@ -118,12 +118,12 @@ func runLinCase(c linCase) outcome {
 	case 1:
 		opts.Executor = func(fn func()) {
 			execWG.Add(1)
-			go func() { defer execWG.Done(); fn() }()
+			go func() { defer execWG.Done(); defer crashGuard("C02", "Linearizable", c); fn() }()
 		}
 	case 2:
 		restore := otter.VerifSetDefaultExecutor(func(fn func()) {
 			execWG.Add(1)
-			go func() { defer execWG.Done(); fn() }()
+			go func() { defer execWG.Done(); defer crashGuard("C02", "Linearizable", c); fn() }()
 		})
 		defer restore()
 	}
